@@ -91,6 +91,32 @@ pub fn gen_case(t: &mut Tape) -> Case {
     match t.choose(12) {
         0 => src.push_str(&format!("{sep}remove (from t1 | select {{id}})")),
         1 => src.push_str(&format!("{sep}intersect (from t1 | select {{id}})")),
+        // inline pipelines nested two or three deep whose middle level passes the inner columns on
+        // without selecting them; the outer level uses them (explicitly or through its implicit select)
+        2 | 3 => {
+            let inner = *t.pick(&[
+                "(from t3 | select {zz = id, zy = a})",
+                "(from t3 | derive {zz = id + 1} | select {zz, zy = a})",
+                "(from t3 | select {zz = id, zy = a} | join zd = (from t1 | select {zx = id}) (zz == zd.zx))",
+                "(from t3 | select {zz = id, zy = a} | filter zy > 0)",
+            ]);
+            // (no sort / take here: a sort in effect around a sub-pipeline is the recorded
+            // C16-subpipeline-sort-leaks-into-main / computed-sort-key findings)
+            let middle = *t.pick(&["", " | filter zc.zy != null", " | derive {zw = zc.zy + 1}", " | filter t2.a > 0 | derive {zw = t2.a}"]);
+            let outer = *t.pick(&["", " | select {zb.zz, zb.zy}", " | derive {zv = zb.zz + zb.zy}", " | filter zb.zz > 0 | select {zb.zy}", " | group {zb.zz} (aggregate {zn = count this})"]);
+            src.push_str(&format!("{sep}join side:left zb = (from t2 | join zc = {inner} (t2.id == zc.zz){middle}) (true){outer}"));
+            // a sort with a computed key anywhere before this join is the recorded finding's shape
+            fn computed_sort(steps: &[crate::model::ast::Step]) -> bool {
+                steps.iter().any(|s| match s {
+                    crate::model::ast::Step::Sort(keys) => keys.iter().any(|k| !matches!(k.expr, crate::model::ast::Expr::Col(_))),
+                    crate::model::ast::Step::Group { inner, .. } => computed_sort(inner),
+                    _ => false,
+                })
+            }
+            if computed_sort(&c.prog.main.steps) {
+                cs = true;
+            }
+        }
         _ => {}
     }
     src.push('\n');
